@@ -365,8 +365,9 @@ func c06Run(c *core.Ctx) {
 						c.HarnessError("csv header schema rejected: " + err.Error())
 						continue
 					}
-					for _, c1 := range names {
-						for _, c2 := range names {
+					cells := append(append([]string{}, names...), "b,b", ",a", "a,b,b")
+					for _, c1 := range cells {
+						for _, c2 := range cells {
 							for _, extra := range []string{"", ",x"} {
 								in := rfc4180(c1, ",", false) + "," + rfc4180(" "+c2+" ", ",", false) + extra + "\nv1,v2\n"
 								match := c1 == n1 && c2 == n2
